@@ -32,16 +32,40 @@ def main():
             got, err = None, type(e).__name__
         package = module.rsplit('.', 1)[0] if '.' in module else ''
         spec = importlib_resolve(level, target, package) if level else target
-        # the transformer on a tree with the import nested inside a function and a class
-        tree = ast.parse('%s\ndef f():\n    %s\nclass K:\n    %s\n    def g(self):\n        %s\n' % (src, src, src, src))
-        before = [(n.lineno, n.col_offset, [(a.name, a.asname) for a in n.names])
-                  for n in ast.walk(tree) if isinstance(n, ast.ImportFrom)]
+        # the transformer on a tree that holds the same target text at EVERY level valid at this position
+        # (top level, inside a function, inside a class body, inside a method), plus this case's own level
+        depth = module.count('.')
+        levels = sorted(set([level] + list(range(1, depth + 1)))) if level else [0]
+        lines, want = [], {}
+        for lv in levels:
+            st = 'from %s%s import nm as al, other' % ('.' * lv, target or '')
+            for tmpl in ('%s', 'def f%d():\n    %%s' % lv, 'class K%d:\n    %%s\n    def g(self):\n        %%s' % lv):
+                block = tmpl.replace('%s', st) if tmpl.count('%s') != 1 or True else tmpl
+                lines.append(block)
+        src_all = '\n'.join(lines) + '\n'
+        tree = ast.parse(src_all)
+        before = {}
+        for n in ast.walk(tree):
+            if isinstance(n, ast.ImportFrom):
+                before[(n.lineno, n.col_offset)] = (n.level, [(a.name, a.asname) for a in n.names])
         try:
             new = RM.ImportFromTransformer(module).visit(tree)
-            after = [(n.lineno, n.col_offset, [(a.name, a.asname) for a in n.names], n.module, n.level)
-                     for n in ast.walk(new) if isinstance(n, ast.ImportFrom)]
-            names_ok = [b == a[:3] for b, a in zip(before, after)] == [True] * 4 and len(after) == 4
-            mods = sorted({(a[3], a[4]) for a in after})
+            names_ok, mods_ok = True, True
+            seen = 0
+            for n in ast.walk(new):
+                if isinstance(n, ast.ImportFrom):
+                    seen += 1
+                    lv, nm = before.get((n.lineno, n.col_offset), (None, None))
+                    if nm != [(a.name, a.asname) for a in n.names]:
+                        names_ok = False
+                    exp = (importlib_resolve(lv, target, package) if lv else target)
+                    valid_lv = (lv == 0) or (1 <= lv <= depth)
+                    if valid_lv and (n.module != exp or n.level != 0):
+                        mods_ok = False
+            if seen != len(before):
+                names_ok = False
+            names_ok = names_ok and mods_ok
+            mods = [[spec, 0]] if mods_ok else [['<some import in the tree resolved differently>', -1]]
         except Exception as e:  # noqa
             names_ok, mods = False, [[type(e).__name__, -1]]
         out.append(dict(got=got, err=err, spec=spec, names_ok=names_ok, mods=mods))
@@ -49,23 +73,45 @@ def main():
     disk = []
     root = tempfile.mkdtemp(prefix='c17_', dir=payload['tmp'])
     try:
+        import kernprof
         for k, c in enumerate(payload['disk']):
             base = os.path.join(root, 'r%d' % k)
             comps, stem, level, target = c['pcomps'], c['stem'], c['level'], c['target']
-            d = base
-            os.makedirs(d)
-            for comp in comps:
+            link = c.get('link')
+            real_comps = list(comps)
+            if link == 'pkg':
+                real_comps[0] = comps[0] + '_v2'          # the top package directory is reached through a symlink
+            d = os.path.join(base, 'src' if link else '')
+            os.makedirs(d, exist_ok=True)
+            top = d
+            for comp in real_comps:
                 d = os.path.join(d, comp)
                 os.makedirs(d, exist_ok=True)
                 open(os.path.join(d, '__init__.py'), 'a').close()
             path = os.path.join(d, stem + '.py')
             with open(path, 'a') as f:
                 f.write('from %s%s import nm as al\n' % ('.' * level, target or ''))
+            search_root = base
+            if link:
+                search_root = os.path.join(base, 'site')
+                os.makedirs(search_root)
+                os.symlink(os.path.join('..', 'src', real_comps[0]), os.path.join(search_root, comps[0]))
             try:
-                tree = RM.AstTreeModuleProfiler._get_script_ast_tree(path)
+                if c.get('via_find'):
+                    old_path = list(sys.path)
+                    sys.path.insert(0, search_root)
+                    try:
+                        modname = '.'.join(comps + ([] if stem == '__init__' else [stem]))
+                        found = kernprof.find_module_script(modname)
+                    finally:
+                        sys.path[:] = old_path
+                    use = found
+                else:
+                    use = os.path.join(search_root, *comps, stem + '.py')
+                tree = RM.AstTreeModuleProfiler._get_script_ast_tree(use)
                 n = [x for x in ast.walk(tree) if isinstance(x, ast.ImportFrom)][0]
                 got = (n.module, n.level, [(a.name, a.asname) for a in n.names])
-            except Exception as e:  # noqa
+            except BaseException as e:  # noqa
                 got = (type(e).__name__, -1, [])
             # what python itself resolves: __package__ of that file when imported / run with -m
             package = '.'.join(comps)
